@@ -176,6 +176,11 @@ def check(ctx: Ctx) -> None:
                       'a cached dense response' % sorted(need - frozen), init.path, init.lineno, operand='frozen')
     _check_discretize(ctx)
 
+    from ..dsf import auto_memo_check
+    ctx.rule('C03.g', 'no auto-discovered lazily filled cache of the classes in the anchored modules can be stale at the exit of a public method (dependencies = what the fill expression reads, incl. mutating calls on held sub-objects)', floor=6)
+    auto_memo_check(ctx, 'C03.g', [FA, SU, 'pyphysim/channels/multiuser.py'],
+                    skip_classes={'MultiUserChannelMatrix', 'MultiUserChannelMatrixExtInt'})
+
 
 def _check_pathloss(ctx: Ctx) -> None:
     M = ctx.model
@@ -299,31 +304,48 @@ def _check_discretize(ctx: Ctx) -> None:
     ctx.rule('C03.f', 'discretisation: unique rounded integer delays, accumulated colliding powers, normalised', floor=1)
     fn = M.func(FA, 'TdlChannelProfile._calc_discretized_tap_powers_and_delays')
     ctx.instance('C03.f', fn.qualname)
-    src = norm(fn.node).replace(' ', '')
     uniq = [n for n in walk_no_nested(fn.node) if isinstance(n, ast.Call) and norm(n.func) == 'np.unique']
-    u_ok = len(uniq) == 1 and any(k.arg == 'return_inverse' and isinstance(k.value, ast.Constant) and k.value.value is True for k in uniq[0].keywords) \
-        and 'np.round(' in norm(uniq[0]) and 'astype(int)' in norm(uniq[0])
-    inv = None
+    if len(uniq) != 1:
+        ctx.error('C03.f: delays are not obtained from a single np.unique call (cannot tell)')
+    u_ok = 'np.round(' in norm(uniq[0]) and 'astype(int)' in norm(uniq[0])
+    inv_names = set()
     for n in walk_no_nested(fn.node):
         if isinstance(n, ast.Assign) and isinstance(n.targets[0], ast.Tuple) and n.value in uniq:
-            inv = norm(n.targets[0].elts[1])
-    acc = [n for n in ast.walk(fn.node) if isinstance(n, ast.AugAssign) and isinstance(n.op, ast.Add) and isinstance(n.target, ast.Subscript)]
-    plain = [n for n in ast.walk(fn.node) if isinstance(n, ast.Assign) and isinstance(n.targets[0], ast.Subscript)
-             and acc and norm(n.targets[0].value) == norm(acc[0].target.value)]
-    idx_ok = False
-    if acc and inv:
-        sl = norm(acc[0].target.slice)
-        loc = {n.targets[0].id: norm(n.value) for n in ast.walk(fn.node) if isinstance(n, ast.Assign) and isinstance(n.targets[0], ast.Name)}
-        idx_ok = sl.startswith(inv + '[') or loc.get(sl, '').startswith(inv + '[')
-    nrm = [n for n in walk_no_nested(fn.node) if isinstance(n, ast.AugAssign) and isinstance(n.op, ast.Div)
-           and acc and norm(n.target) == norm(acc[0].target.value) and norm(n.value).replace(' ', '') == 'np.sum(%s)' % norm(n.target)]
-    ok = u_ok and len(acc) == 1 and not plain and idx_ok and len(nrm) == 1
-    ctx.obligation('C03.f', fn.qualname, ok, {'unique_rounded_int_delays': u_ok, 'accumulating_statements': len(acc),
-                                              'overwriting_statements': len(plain), 'indexed_by_inverse': idx_ok, 'normalised': len(nrm) == 1})
+            inv_names |= {norm(e) for e in n.targets[0].elts[1:]}
+    loc = {n.targets[0].id: norm(n.value) for n in ast.walk(fn.node) if isinstance(n, ast.Assign) and isinstance(n.targets[0], ast.Name)}
+
+    def via_inverse(e: ast.AST) -> bool:
+        s = norm(e)
+        s = loc.get(s, s)
+        return any(s == i or s.startswith(i + '[') for i in inv_names)
+
+    good, bad = [], []
+    for n in ast.walk(fn.node):
+        if isinstance(n, ast.AugAssign) and isinstance(n.op, ast.Add) and isinstance(n.target, ast.Subscript) and via_inverse(n.target.slice):
+            good.append('+= through the inverse index')
+        if isinstance(n, ast.Assign) and isinstance(n.targets[0], ast.Subscript) and via_inverse(n.targets[0].slice):
+            bad.append('plain assignment through the inverse index overwrites colliding taps: `%s`' % norm(n)[:70])
+        if isinstance(n, ast.Call):
+            f = norm(n.func)
+            if f == 'np.add.at' and len(n.args) == 3 and via_inverse(n.args[1]):
+                good.append('np.add.at')
+            if f == 'np.bincount' and n.args and via_inverse(n.args[0]) and any(k.arg == 'weights' for k in n.keywords):
+                good.append('np.bincount(weights=)')
+            if f.endswith('.reduceat'):
+                bad.append('reduceat sums CONTIGUOUS runs only: wrong when colliding taps are not adjacent (profile not sorted by delay): `%s`'
+                           % norm(n)[:70])
+    nrm = [n for n in ast.walk(fn.node) if (isinstance(n, ast.AugAssign) and isinstance(n.op, ast.Div) or
+                                            isinstance(n, ast.BinOp) and isinstance(n.op, ast.Div))
+           and 'sum(' in norm(n.value if isinstance(n, ast.AugAssign) else n.right)]
+    if not good and not bad:
+        ctx.error('C03.f: merging of colliding taps uses neither a recognised accumulation nor a recognisably wrong form (cannot tell)')
+    ok = u_ok and bool(good) and not bad and bool(nrm)
+    ctx.obligation('C03.f', fn.qualname, ok, {'unique_rounded_int_delays': u_ok, 'accumulation': good, 'wrong_forms': bad, 'normalised': bool(nrm)})
     if not ok:
-        ctx.violation('C03.f', fn.qualname, 'discretisation no longer (unique rounded integer delays=%s, accumulates colliding powers '
-                      'with += through the inverse index=%s/%s, overwrites=%d, normalises by the sum=%s)'
-                      % (u_ok, len(acc) == 1, idx_ok, len(plain), len(nrm) == 1), fn.path, fn.lineno, operand='merge')
+        why = bad or (['delays are not np.unique(np.round(delay/Ts).astype(int))'] if not u_ok else []) or \
+            (['powers are not divided by their sum'] if not nrm else ['no accumulation'])
+        ctx.violation('C03.f', fn.qualname, 'discretisation does not merge colliding taps into normalised powers: %s' % '; '.join(why),
+                      fn.path, fn.lineno, operand='merge')
 
 
 def synthetic():
@@ -371,3 +393,13 @@ MUTANTS = [
 ENGINES = ['model', 'paths', 'terms', 'dsf']
 TECHNIQUE = ('static analysis: slice-length idiom, call-count path rule, sibling factor agreement as terms, index-pairing rule, '
              'derived-state freshness')
+
+
+def sweep(overlay):
+    from ..selftest import simple_statement, sweep_lines
+    out = []
+    for path, q in ((FA, 'TdlChannel.corrupt_data_in_freq_domain'), (SU, 'SuChannel.corrupt_data'),
+                    (SU, 'SuChannel.corrupt_data_in_freq_domain'), (SU, 'SuChannel.get_last_impulse_response'),
+                    (FA, 'TdlChannelProfile._calc_discretized_tap_powers_and_delays'), (FA, 'TdlChannelProfile.__init__')):
+        out += sweep_lines(overlay, path, q, simple_statement, 'C03')
+    return out
